@@ -528,10 +528,10 @@ pub fn jobs(pn: u32, tier: Tier) -> Vec<Job> {
             let w = [40, 34, 1, 0, 1, 0, 0, 10, 0, 0];
             let lens = if q { 400..=2000 } else { 2000..=20000 };
             for (fam, vals) in [("map", vec!["u64", "string", "wide"]), ("set", vec!["u64", "string", "wide"])] {
-                v.push(job(&format!("{}-tree-long-churn", fam), random(ord_cases(id, ord_mix(fam, "tree", &vals, &[20, 40, 100], w, lens.clone(), 1)), n(480, 4_000)), rule.clone(), &["arena_growth_x2", "clear_after_growth"]));
+                v.push(job(&format!("{}-tree-long-churn", fam), random(ord_cases(id, ord_mix(fam, "tree", &vals, &[20, 40, 100], w, lens.clone(), 1)), n(480, 500)), rule.clone(), &["arena_growth_x2", "clear_after_growth"]));
                 v.push(job(&format!("{}-tree-enum", fam), JobKind::Enumerate { spec: ord_enum(id, fam, "tree", "u64", if q { 5 } else { 7 }, true, &[], 2_000_000) }, Rule::any("transition that removes an entry", &["rm_two_children", "rm_black_leaf", "rm_red_leaf", "rm_one_child", "rm_last"]), &[]));
             }
-            v.push(job("key-tree-long-churn", random(key_cases(id, key_mix("tree", &[20, 40, 100], 30, 6, [50, 6, 6, 6, 6, 24, 1, 0], lens.clone(), Some(0..=8))), n(480, 4_000)), rule.clone(), &["arena_growth_x2", "clear_after_growth"]));
+            v.push(job("key-tree-long-churn", random(key_cases(id, key_mix("tree", &[20, 40, 100], 30, 6, [50, 6, 6, 6, 6, 24, 1, 0], lens.clone(), Some(0..=8))), n(480, 500)), rule.clone(), &["arena_growth_x2", "clear_after_growth"]));
             for (fam, vals) in [("map", vec!["u64"]), ("set", vec!["u64"])] {
                 v.push(job(&format!("{}-tree-big-churn", fam), random(ord_cases(id, ord_mix(fam, "tree", &vals, &[1000, 5000], w, 600..=2500, 3)), n(60, 1_500)), Rule::any("history with >=2 arena growth events", &["arena_growth_x2"]), &["arena_growth_x2"]));
             }
